@@ -260,6 +260,43 @@ func Gate(args []string) {
 	for r := range results {
 		sched(r.text, r.forb, "concurrent", r.out)
 	}
+	// (c) history: contexts with other filter sets (none, each filter alone, all but one) have parsed everything before
+	// the default context is asked again - what a default context admits must not depend on what other contexts of the
+	// process have seen
+	mk := []func() frontend.Visitor{
+		func() frontend.Visitor { return &frontend.UpdatingNotAllowedClauseFilter{} },
+		func() frontend.Visitor { return &frontend.UpdatingClauseFilter{} },
+		func() frontend.Visitor { return &frontend.ExplicitProcedureInvocationFilter{} },
+		func() frontend.Visitor { return &frontend.ImplicitProcedureInvocationFilter{} },
+		func() frontend.Visitor { return &frontend.SpecifiedParametersFilter{} },
+	}
+	var others [][]int
+	others = append(others, []int{})
+	for i := range mk {
+		others = append(others, []int{i})
+		var rest []int
+		for j := range mk {
+			if j != i {
+				rest = append(rest, j)
+			}
+		}
+		others = append(others, rest)
+	}
+	for _, set := range others {
+		for _, text := range append(append([]string{}, forbidden...), allowed...) {
+			var fs []frontend.Visitor
+			for _, i := range set {
+				fs = append(fs, mk[i]())
+			}
+			parseWith(frontend.NewContext(fs...), text)
+		}
+	}
+	for _, text := range forbidden {
+		sched(text, true, "after-other-contexts", parseWith(frontend.DefaultCypherContext(), text))
+	}
+	for _, text := range allowed {
+		sched(text, false, "after-other-contexts", parseWith(frontend.DefaultCypherContext(), text))
+	}
 	w.Close()
 	fmt.Printf("{\"events\":%d}\n", w.N)
 }
